@@ -42,6 +42,26 @@ func (p *Prog) BytesOfConst(info *types.Info, e ast.Expr) (string, bool) {
 		if IsConversion(info, x) && len(x.Args) == 1 {
 			return p.BytesOfConst(info, x.Args[0])
 		}
+	case *ast.CompositeLit:
+		// []byte{'\n'}: a literal of byte constants
+		if tv, ok := info.Types[x]; ok && tv.Type != nil {
+			if sl, ok := tv.Type.Underlying().(*types.Slice); ok {
+				if b, ok := sl.Elem().Underlying().(*types.Basic); ok && b.Kind() == types.Uint8 {
+					var out []byte
+					for _, el := range x.Elts {
+						if _, isKV := el.(*ast.KeyValueExpr); isKV {
+							return "", false
+						}
+						k, isConst := ConstInt(info, el)
+						if !isConst || k < 0 || k > 255 {
+							return "", false
+						}
+						out = append(out, byte(k))
+					}
+					return string(out), true
+				}
+			}
+		}
 	case *ast.Ident:
 		if v, ok := info.Uses[x].(*types.Var); ok && v.Pkg() != nil && v.Parent() == v.Pkg().Scope() {
 			if init, ii := p.PkgVarInit(v); init != nil {
